@@ -40,6 +40,10 @@ pub fn cmps_get() -> u64 {
     CMPS.with(|c| c.get())
 }
 #[inline]
+pub fn cmps_set(v: u64) {
+    CMPS.with(|c| c.set(v));
+}
+#[inline]
 pub fn fuse_arm(k: u64) {
     FUSE.with(|f| f.set(Some(k)));
 }
